@@ -13,7 +13,7 @@ REAL_VS_STUB = {
         'power loss: fsync ledger keyed by inode, unsynced file data dropped from the snapshot',
         'I/O errors: raised by the seam instead of / after the real call',
         'rsync/ssh/coreutils of the backup: in-process copier with per-file and per-chunk yield points, cross-checked against '
-        '/usr/bin/rsync on generated trees (tools/rsync_fidelity.py); 4 % (quick) / 15 % (thorough) of the C15 runs use the real '
+        '/usr/bin/rsync on generated trees (tools/rsync_fidelity.py); 8 % (quick) / 20 % (thorough) of the C15 runs use the real '
         '/usr/bin/rsync and coreutils through the unmodified BackupManager, one scheduling point per external call',
         'uuid4, directory listing order: seeded',
     ],
